@@ -360,6 +360,7 @@ class PyEval:
                     args.append(self.expr(a, env, ev))
             kw = tuple((k.arg, self.expr(k.value, env, ev)) for k in e.keywords)
             v = ('call', f, tuple(args), kw)
+            ev.append(PEvent('ecall', v, node=e))      # every call, in evaluation order
             return v
         if isinstance(e, ast.Compare):
             left = self.expr(e.left, env, ev)
